@@ -906,6 +906,7 @@ impl<T: RecognizerReadable> RecognizerReadable for Option<T> {
 
 pub struct EmptyBodyRecognizer<T> {
     seen_start: bool,
+    seen_extant: bool,
     _type: PhantomData<fn() -> Option<T>>,
 }
 
@@ -913,6 +914,7 @@ impl<T> Default for EmptyBodyRecognizer<T> {
     fn default() -> Self {
         EmptyBodyRecognizer {
             seen_start: false,
+            seen_extant: false,
             _type: PhantomData,
         }
     }
@@ -925,6 +927,10 @@ impl<T> Recognizer for EmptyBodyRecognizer<T> {
         if self.seen_start {
             if matches!(input, ReadEvent::EndRecord) {
                 Some(Ok(None))
+            } else if !self.seen_extant && matches!(input, ReadEvent::Extant) {
+                // An absent value is written as a body containing a single extant item.
+                self.seen_extant = true;
+                None
             } else {
                 Some(Err(input.kind_error(ExpectedEvent::EndOfRecord)))
             }
@@ -938,6 +944,7 @@ impl<T> Recognizer for EmptyBodyRecognizer<T> {
 
     fn reset(&mut self) {
         self.seen_start = false;
+        self.seen_extant = false;
     }
 }
 
